@@ -18,7 +18,7 @@ def T(quick, thorough, floor=200, **kw):
 
 
 PROPS = {
-    "C18": T(6000, 12000,
+    "C18": T(6000, 8000,
              rule="graph6 (40% of the cases): simple undirected graph on n nodes, n in 0..=70 with 61..64 and 0..3 over-sampled (thorough: "
                   "also 100..320), 10 families; graph6_string() on Graph (shuffled history), StableGraph with vacancies, GraphMap, "
                   "MatrixGraph with removed ids and Csr must equal the harness' own byte-level encoder applied to the adjacency in "
